@@ -169,10 +169,17 @@ fn update_file_content_inner(file_name: &str, content: &str) {
         let mut resolver = WasmModuleResolver::new();
         parse_and_bind(&mut resolver, &file_name, content)
     });
-    if let Ok(f) = res {
-        BUNDLER.with(|b| {
-            let mut b = b.borrow_mut();
-            b.files.insert(file_name, f);
-        })
-    }
+    BUNDLER.with(|b| {
+        let mut b = b.borrow_mut();
+        match res {
+            Ok(f) => {
+                b.files.insert(file_name, f);
+            }
+            // the new content does not parse: drop the stale module so that the next
+            // build re-reads the file and reports the error instead of using old code
+            Err(_) => {
+                b.files.remove(&file_name);
+            }
+        }
+    })
 }
